@@ -7,7 +7,7 @@ M=$(realpath "$1"); ID=$2; TIER=${3:-quick}
 lc=$(echo "$ID" | tr A-Z a-z)
 S=$(mktemp -d /tmp/mutrun-XXXXXX)
 trap 'rm -rf "$S"' EXIT
-cp -r /verif/engine "$S/engine"
+cp -r "${VERIF_ENGINE_SRC:-/verif/engine}" "$S/engine"
 cd "$S/engine" || exit 2
 sed -i "s#^replace go.starlark.net => .*#replace go.starlark.net => $M#" go.mod
 cp "$M/go.sum" go.sum
